@@ -524,9 +524,12 @@ func checkNK(c nkCase) (v *mc.Viol, class string) {
 		}
 	}
 	ser := handNameKey(nk)
-	if built != nil && !bytes.Equal(ser, built) {
-		// decoder did not reproduce the fields it was given: not this property's business (C04)
-		return nil, "name key: decoder altered fields (left to C04)"
+	if built != nil {
+		// the serialized name key is what the issuer published: the bytes this key was decoded from
+		if !bytes.Equal(ser, built) {
+			return bad("a decoded name key does not serialize to the bytes it was decoded from", fmt.Sprintf("published %x, fields after decoding %x", built, ser))
+		}
+		ser = built
 	}
 	want := sha256.Sum256(ser)
 
@@ -614,11 +617,19 @@ func main() {
 		}
 	}
 	exps := []uint64{3, 17, 255, 65537, 1<<31 - 1, 1<<31 + 1}
+	// exponents whose DER ends in a byte that text handling treats specially (the exponent is the last
+	// field of the key): TAB, VT, CR, NEL as the low byte, LF CR as the low two; on a subset of lengths
+	expsTail := []uint64{9, 11, 13, 133, 269, 0x0a0d, 65549, 0x2021, 0x3d3d, 0x0001_0000_0d}
 	var rsaCases []rsaCase
 	for _, b := range bitLens {
 		for p := 0; p < 4; p++ {
 			for _, e := range exps {
 				rsaCases = append(rsaCases, rsaCase{Bits: b, Pattern: p, E: e})
+			}
+			if b%64 == 0 || b%64 == 63 || b < 80 {
+				for _, e := range expsTail {
+					rsaCases = append(rsaCases, rsaCase{Bits: b, Pattern: p, E: e})
+				}
 			}
 		}
 	}
@@ -706,7 +717,7 @@ func main() {
 		"the type-3 inner request's one-byte token key id is not part of this property and is not examined",
 		"name keys read through the verif hook EncapKey.VerifParts; KEM public keys serialised by go-hpke",
 		"crypto/rand.Reader is replaced by a per-goroutine SHA-256 counter DRBG")
-	r.Set("dimensions", map[string]any{"modulus_bit_lengths": fmt.Sprintf("%d..%d (every value) plus %v", lo, hi, named), "modulus_patterns": patternNames, "exponents": exps,
+	r.Set("dimensions", map[string]any{"modulus_bit_lengths": fmt.Sprintf("%d..%d (every value) plus %v", lo, hi, named), "modulus_patterns": patternNames, "exponents": exps, "exponents_with_special_last_bytes": expsTail,
 		"oprf_keys_per_suite": nOPRF, "rsa_keys": len(px.RSAKeys()), "name_key_cases": len(nkCases), "rsa_cases": len(rsaCases), "key_id_cases": len(idCases)})
 	r.Finish()
 }
